@@ -227,7 +227,7 @@ func ordCmd(args []string) error {
 		data := randBytes(rng, l)
 		pfx := p2pkhScript(byte(i))
 		e := Ev{"ev": "inscribe", "ct": ints([]byte(ct)), "data": ints(data), "prefix": ints(*pfx), "script": []int{}, "outSats": 0,
-			"parsed": Ev{"ok": false, "ct": []int{}, "data": []int{}, "prefix": []int{}}, "isInscr": false, "type": ""}
+			"parsed": Ev{"ok": false, "ct": []int{}, "data": []int{}, "prefix": []int{}}, "isInscr": false, "type": "", "after": []int{}, "data2": []int{}, "script2": []int{}}
 		p, msg := guard(func() {
 			tx := bt.NewTx()
 			if err := tx.Inscribe(&bscript.InscriptionArgs{LockingScriptPrefix: pfx, Data: data, ContentType: ct}); err != nil {
@@ -239,7 +239,18 @@ func ordCmd(args []string) error {
 			e["isInscr"], e["type"] = s.IsP2PKHInscription(), s.ScriptType()
 			if ia, err := s.ParseInscription(); err == nil {
 				e["parsed"] = Ev{"ok": true, "ct": ints([]byte(ia.ContentType)), "data": ints(ia.Data), "prefix": ints(*ia.LockingScriptPrefix)}
+				// a second inscription made from the parsed arguments, on another transaction:
+				// the first locking script must not change
+				d2 := make([]byte, len(data))
+				for k := range d2 {
+					d2[k] = data[k] ^ 0xff
+				}
+				tx2 := bt.NewTx()
+				if err := tx2.Inscribe(&bscript.InscriptionArgs{LockingScriptPrefix: ia.LockingScriptPrefix, Data: d2, ContentType: ct}); err == nil {
+					e["data2"], e["script2"] = ints(d2), ints(*tx2.Outputs[0].LockingScript)
+				}
 			}
+			e["after"] = ints(*s)
 		})
 		if p {
 			e["ev"], e["panic"] = "panic", msg
